@@ -2131,6 +2131,20 @@ class CatchExceptionDataset(Dataset):
             LOG.info(f'{self.__class__.__name__} filtered {catched_count} of {total_count} examples (catched expections: {types}).')
 
 
+class _FilteredExample:
+    """
+    Marker that `PrefetchDataset` yields inside the workers for an example
+    that was dropped by `catch_filter_exception`. It is pickled by reference
+    to the module level instance, hence it keeps its identity when a process
+    based backend sends it from a worker to the main process.
+    """
+    def __reduce__(self):
+        return '_FILTERED_EXAMPLE'
+
+
+_FILTERED_EXAMPLE = _FilteredExample()
+
+
 class PrefetchDataset(Dataset):
     def __init__(
             self,
@@ -2226,7 +2240,7 @@ class PrefetchDataset(Dataset):
             else:
                 catch_filter_exception = self.catch_filter_exception
 
-            unique_object = object()
+            unique_object = _FILTERED_EXAMPLE
 
             if with_key:
                 def catcher(key):
